@@ -14,3 +14,29 @@ package config
 //@   props C09 C11
 //@   ints both
 //@   inline
+
+// ---------- C15: the route table names buckets by hex strings ----------
+
+// helpers interpreted by govc
+func forall(lo, hi int, p func(i int) bool) bool {
+	for i := lo; i < hi; i++ {
+		if !p(i) {
+			return false
+		}
+	}
+	return true
+}
+func fresh(x interface{}) bool { return true }
+
+// the uninterpreted text -> number functions behind strconv.ParseInt (interpreted by govc)
+func parseIntValue(s string, base int) int64 { return 0 }
+func parseIntOK(s string, base int) bool     { return false }
+
+// every bucket id 0..255 written as a well-formed hex number is accepted and decoded to itself
+//@ func (s *Server) Decode
+//@   props C15
+//@   ints bv
+//@   modifies s.Buckets
+//@   ensures forall(0, len(s.BucketsHex), func(i int) bool { return parseIntOK(s.BucketsHex[i], 16) && 0 <= parseIntValue(s.BucketsHex[i], 16) && parseIntValue(s.BucketsHex[i], 16) < 256 }) ==> result0 == nil
+//@   ensures result0 == nil ==> len(s.Buckets) == len(s.BucketsHex) && forall(0, len(s.BucketsHex), func(i int) bool { return parseIntOK(s.BucketsHex[i], 16) && s.Buckets[i] == int(parseIntValue(s.BucketsHex[i], 16)) })
+//@   loop 1 invariant len(s.Buckets) == len(s.BucketsHex) && fresh(s.Buckets) && forall(0, $index, func(j int) bool { return parseIntOK(s.BucketsHex[j], 16) && s.Buckets[j] == int(parseIntValue(s.BucketsHex[j], 16)) })
